@@ -136,3 +136,8 @@ package cookies
 //@ prop C05 C03
 //@ ensures[fresh-32-byte-nonces-and-verifier] ret1 == nil ==> ret0 != nil && arg(Nonce#0, 0) == 32 && arg(Nonce#1, 0) == 32
 //@     && ret1(Nonce#0) == nil && ret1(Nonce#1) == nil
+
+// ------------------------------------------------------------------ C18: every Set-Cookie value comes from the single constructor
+//@ prop C18
+//@ scan[set-cookie-values-from-constructor] cookie-constructor pkg/cookies.MakeCookieFromOptions pkg/sessions/cookie.(*SessionStore).makeCookie pkg/sessions/persistence.(*ticket).makeCookie pkg/sessions/cookie.(*SessionStore).makeSessionCookie pkg/sessions/cookie.copyCookie pkg/sessions/cookie.splitCookie
+//@ scan[cookie-literals] alloc-of net/http.Cookie pkg/cookies.MakeCookieFromOptions pkg/sessions/cookie.copyCookie pkg/validation.validateCookieName
